@@ -66,29 +66,36 @@ fn cmd_run(args: &[String]) {
                     idle = 0;
                     last = now;
                 }
-                if idle >= 30 {
+                if idle >= 20 {
                     println!("HANG scenario_index={}", now.0);
                     std::process::exit(3);
                 }
             }
         });
     }
-    let rt = tokio::runtime::Builder::new_current_thread().enable_all().build().unwrap();
-    let mut f = std::io::BufWriter::new(std::fs::File::create(&out).expect("create out"));
-    let mut n = 0usize;
-    rt.block_on(async {
-        for (k, sc) in scripts.iter().enumerate() {
-            cur.store(k, Ordering::SeqCst);
-            let tr = if sc["sock"] == "PROXY" { engine::run_proxy_scenario(sc).await } else { engine::run_scenario(sc).await };
-            for mut e in tr {
-                n += 1;
-                e["i"] = serde_json::json!(n);
-                writeln!(f, "{}", e).unwrap();
+    // the scenarios run on a thread with a 2 MiB stack (what a spawned thread or a tokio worker has): input-dependent
+    // recursion in the code under test overflows it and kills the process, which the caller reports with the scenario
+    let nscripts = scripts.len();
+    let worker = std::thread::Builder::new().stack_size(2 * 1024 * 1024).spawn(move || {
+        let rt = tokio::runtime::Builder::new_current_thread().enable_all().build().unwrap();
+        let mut f = std::io::BufWriter::new(std::fs::File::create(&out).expect("create out"));
+        let mut n = 0usize;
+        rt.block_on(async {
+            for (k, sc) in scripts.iter().enumerate() {
+                cur.store(k, Ordering::SeqCst);
+                let tr = if sc["sock"] == "PROXY" { engine::run_proxy_scenario(sc).await } else { engine::run_scenario(sc).await };
+                for mut e in tr {
+                    n += 1;
+                    e["i"] = serde_json::json!(n);
+                    writeln!(f, "{}", e).unwrap();
+                }
+                f.flush().unwrap();
             }
-            f.flush().unwrap();
-        }
+        });
+        n
     });
-    println!("scenarios={} events={}", scripts.len(), n);
+    let n = worker.expect("spawn").join().unwrap_or_else(|_| std::process::exit(101));
+    println!("scenarios={} events={}", nscripts, n);
 }
 
 fn cmd_fq(args: &[String]) {
